@@ -1,24 +1,158 @@
 //! Value generators for the concordium_base binary-serialisable chain types
-//! (property C05). Placeholder committed while the full generator set is
-//! being written.
-use codeccore::{base_subject, Subject};
-use simcore::Rng;
+//! (property C05). Each subject is `base_subject::<T>(name, gen)` where `gen`
+//! builds a value of `T` from the simulator's PRNG through public
+//! constructors, struct literals and generation functions (never through
+//! `deserial`).
+//!
+//! * `prims`      - integers, generic containers, local `#[derive(Serialize)]` types
+//! * `base_types` - `base.rs`, `common/types.rs`, hashes, smart contract and PLT leaf types
+//! * `upd`        - `updates.rs`
+//! * `txs`        - `transactions.rs`
+//! * `idcrypto`   - `id/types.rs`, encrypted transfers, curves, keys, signatures, proofs
+//! * `pool`       - expensive values built once per process from fixed seeds
+//! * `cred_det`   - `create_credential` with an explicit random source (upstream uses `thread_rng`)
+//!
+//! Every generator is a pure function of the `Rng` it is given, also across
+//! processes (test `print_digests`). Types without `PartialEq`/`Debug` are
+//! wrapped (`util::WD`, `util::W`); their typed equality is equality of
+//! encodings.
+//!
+//! Environment: `VERIF_C05_ABORTING_SUBJECTS=1` adds the subjects that contain
+//! a `ProtocolUpdate` (see `upd::include_aborting`): their decoder can be made
+//! to abort the process by damaged input, which ends an in-process batch.
+#[macro_use]
+pub mod util;
+pub mod base_types;
+pub mod cred_det;
+pub mod idcrypto;
+pub mod pool;
+pub mod prims;
+pub mod txs;
+pub mod upd;
 
-fn gen_u64(rng: &mut Rng) -> u64 {
-    match rng.below(6) {
-        0 => 0,
-        1 => u64::MAX,
-        2 => rng.below(256),
-        _ => rng.next_u64(),
-    }
-}
+use codeccore::Subject;
 
 pub fn base_subjects() -> Vec<Subject> {
     let mut v = Vec::new();
-    v.push(base_subject::<u64>("u64", gen_u64));
-    v.push(base_subject::<Vec<u8>>("Vec<u8>", |rng| {
-        let n = rng.urange(0, 40);
-        rng.bytes(n)
-    }));
+    prims::subjects(&mut v);
+    base_types::subjects(&mut v);
+    upd::subjects(&mut v);
+    txs::subjects(&mut v);
+    idcrypto::subjects(&mut v);
     v
+}
+
+/// Subjects whose generator is right but whose codec in concordium_base does
+/// not invert its own encoder (a round trip failure on every value). They are
+/// kept in `base_subjects()` so that the defect is visible to the batch.
+pub const ROUNDTRIP_DEFECT_SUBJECTS: &[&str] = &[];
+
+#[cfg(test)]
+mod tests {
+    use simcore::faultio::ReadPlan;
+
+    fn seeds() -> impl Iterator<Item = u64> { (0..20u64).map(|s| s.wrapping_mul(0x9E37_79B9_7F4A_7C15) ^ s) }
+
+    #[test]
+    fn deterministic_and_round_trips() {
+        let t = std::time::Instant::now();
+        crate::pool::force_all();
+        eprintln!("pool construction: {:?}", t.elapsed());
+        let subjects = super::base_subjects();
+        eprintln!("{} subjects", subjects.len());
+        let mut names = std::collections::BTreeSet::new();
+        let mut failures = Vec::new();
+        for s in &subjects {
+            assert!(names.insert(s.name.clone()), "duplicate subject name {}", s.name);
+            let known_defect = super::ROUNDTRIP_DEFECT_SUBJECTS.contains(&s.name.as_str());
+            for seed in seeds() {
+                let a = (s.gen_encode)(seed);
+                let b = (s.gen_encode)(seed);
+                if a != b {
+                    failures.push(format!("{}: seed {} not deterministic", s.name, seed));
+                    break;
+                }
+                match (s.typed)(seed, &ReadPlan::clean()) {
+                    Ok(()) if known_defect => {
+                        failures.push(format!("{}: listed as a round trip defect but seed {} round trips", s.name, seed));
+                        break;
+                    }
+                    Err(e) if !known_defect => {
+                        let e: String = e.chars().take(300).collect();
+                        failures.push(format!("{}: seed {} round trip: {}", s.name, seed, e));
+                        break;
+                    }
+                    _ => {}
+                }
+            }
+        }
+        assert!(failures.is_empty(), "{} failures:\n{}", failures.len(), failures.join("\n"));
+    }
+
+    /// Prints one digest per subject over the encodings of the test seeds; two
+    /// separate processes must print the same lines (cross-process determinism,
+    /// needed for replaying recorded seeds).
+    #[test]
+    fn print_digests() {
+        use sha2::Digest;
+        let mut all = sha2::Sha256::new();
+        for s in super::base_subjects() {
+            let mut h = sha2::Sha256::new();
+            for seed in seeds() {
+                h.update((s.gen_encode)(seed));
+            }
+            let d = h.finalize();
+            all.update(d);
+            println!("DIGEST {} {}", hex::encode(&d[..8]), s.name);
+        }
+        println!("DIGEST-ALL {}", hex::encode(all.finalize()));
+    }
+
+    /// Every variant of the two big sum types is reachable and round trips.
+    #[test]
+    fn every_payload_variant_round_trips() {
+        use crate::util::WD;
+        use concordium_base::{
+            common::{from_bytes, to_bytes},
+            transactions::Payload,
+            updates::UpdatePayload,
+        };
+        let mut tags = std::collections::BTreeSet::new();
+        for variant in 0..crate::txs::PAYLOAD_VARIANTS {
+            for seed in seeds().take(8) {
+                let v = crate::txs::g_payload_variant(&mut simcore::Rng::new(seed), variant);
+                let b = to_bytes(&v);
+                tags.insert(b[0]);
+                let mut cur = std::io::Cursor::new(&b);
+                let d: Payload = from_bytes(&mut cur).unwrap_or_else(|e| panic!("payload variant {} seed {}: {:#}", variant, seed, e));
+                assert_eq!(cur.position() as usize, b.len());
+                assert!(WD(d) == WD(v), "payload variant {} seed {}", variant, seed);
+            }
+        }
+        assert_eq!(tags.len() as u64, crate::txs::PAYLOAD_VARIANTS);
+        let mut tags = std::collections::BTreeSet::new();
+        for variant in 0..crate::upd::UPDATE_PAYLOAD_VARIANTS {
+            for seed in seeds().take(8) {
+                let v = crate::upd::g_update_payload_variant(&mut simcore::Rng::new(seed), variant);
+                let b = to_bytes(&v);
+                tags.insert(b[0]);
+                let mut cur = std::io::Cursor::new(&b);
+                let d: UpdatePayload =
+                    from_bytes(&mut cur).unwrap_or_else(|e| panic!("update payload variant {} seed {}: {:#}", variant, seed, e));
+                assert_eq!(cur.position() as usize, b.len());
+                assert!(WD(d) == WD(v), "update payload variant {} seed {}", variant, seed);
+            }
+        }
+        assert_eq!(tags.len() as u64, crate::upd::UPDATE_PAYLOAD_VARIANTS);
+        // all 2^9 presence combinations of ConfigureBaker
+        let mut bitmaps = std::collections::BTreeSet::new();
+        let mut seed = 0u64;
+        while bitmaps.len() < 512 && seed < 100_000 {
+            let v = crate::txs::g_payload_variant(&mut simcore::Rng::new(seed), 19);
+            let b = to_bytes(&v);
+            bitmaps.insert(u16::from_be_bytes([b[1], b[2]]));
+            seed += 1;
+        }
+        assert_eq!(bitmaps.len(), 512, "ConfigureBaker option combinations reached");
+    }
 }
